@@ -1,6 +1,7 @@
 #!/bin/bash
 # runs in the snapshot directory given by vp run (cwd), with its own work dir
 export VERIF_WORK=/var/tmp/verif-work-thorough
+rm -rf $VERIF_WORK
 ./setup.sh > /dev/null 2>&1
 for p in C16 C14 C18 C09 C17 C15 C01 C02 C03 C04 C05 C06 C07 C08 C12 C13 C19 C10 C20 C11; do
   s=$(date +%s)
